@@ -225,8 +225,19 @@ def kindOf : List (String × Kind) → String → Option Kind
   | [], _ => none
   | (n', k) :: rest, n => if n' = n then some k else kindOf rest n
 
-def useOf (w : W) (n : String) : List Ev :=
+/-- `measure_distance()` calls a per-name helper function that emit() writes once, AFTER pass 2, from the final content of
+    ultrasonic_decls: every measurement of a name — also one in setup() — drives the pins of the LAST top-level binding -/
+def lastUltra : List Item → String → Option (List Nat)
+  | [], _ => none
+  | .decl .ultra n' [t, e] :: rest, n =>
+    match lastUltra rest n with
+    | some q => some q
+    | none => if n' = n then some [t, e] else none
+  | _ :: rest, n => lastUltra rest n
+
+def useOf (fin : String → Option (List Nat)) (w : W) (n : String) : List Ev :=
   match kindOf w.cur n with
+  | some .ultra => (match fin n with | some ps => useEvents .ultra n ps | none => [])
   | some k => (match get w.st.env n k with | some ps => useEvents k n ps | none => [])
   | none => []
 
@@ -245,20 +256,20 @@ def p1LoopItem (s : St) : Item → St × List Ev
   | .decl k n ps => p1Loop s k n ps
   | _ => (s, [])
 
-def stepSetup (w : W) : Item → W × List Ev
+def stepSetup (fin : String → Option (List Nat)) (w : W) : Item → W × List Ev
   | .decl k n ps => let r := p2Setup w.st k n ps; ({ st := r.1, cur := (n, k) :: w.cur }, r.2)
-  | .use n => (w, useOf w n)
+  | .use n => (w, useOf fin w n)
   | .stmt t => (w, [.stmt t])
 
-def stepLoop (w : W) : Item → W × List Ev
+def stepLoop (fin : String → Option (List Nat)) (w : W) : Item → W × List Ev
   | .decl k n ps => let r := p2Loop w.st k n ps; ({ st := r.1, cur := (n, k) :: w.cur }, r.2)
-  | .use n => (w, useOf w n)
+  | .use n => (w, useOf fin w n)
   | .stmt t => (w, [.stmt t])
 
 def pass1S (p : Prog) : St × List Ev := foldEv p1SetupItem ⟨[], []⟩ p.setup
 def pass1L (p : Prog) : St × List Ev := foldEv p1LoopItem (pass1S p).1 p.loop
-def pass2S (p : Prog) : W × List Ev := foldEv stepSetup ⟨(pass1L p).1, []⟩ p.setup
-def pass2L (p : Prog) : W × List Ev := foldEv stepLoop (pass2S p).1 p.loop
+def pass2S (p : Prog) : W × List Ev := foldEv (stepSetup (lastUltra (p.setup ++ p.loop))) ⟨(pass1L p).1, []⟩ p.setup
+def pass2L (p : Prog) : W × List Ev := foldEv (stepLoop (lastUltra (p.setup ++ p.loop))) (pass2S p).1 p.loop
 
 def setupEvents (p : Prog) : List Ev := (pass1S p).2 ++ (pass1L p).2 ++ (pass2S p).2
 
